@@ -310,12 +310,12 @@ func runMon(ctx *vm.Context, L int64) (o outcome) {
 			continue
 		}
 		phi1 := run1 + stackCost(d.DataStack()) + stackCost(d.AltStack())
-		if phi1 > phi0 {
-			o.v = &viol{"phi-increase-" + opName(opc), fmt.Sprintf("%s at pc %d: gas %d -> %d, potential (gas + cost of both stacks) %d -> %d: the instruction created gas", opName(opc), pc, run0, run1, phi0, phi1)}
-			break
-		}
-		if phi1 == phi0 {
-			o.v = &viol{"phi-no-drop-" + opName(opc), fmt.Sprintf("%s at pc %d: gas %d -> %d, potential stays %d: the executed instruction consumed no gas", opName(opc), pc, run0, run1, phi0)}
+		if phi1 >= phi0 {
+			how := "the executed instruction consumed no gas"
+			if phi1 > phi0 {
+				how = "the instruction created gas"
+			}
+			o.v = &viol{"phi-not-decreasing-" + opName(opc), fmt.Sprintf("%s at pc %d: gas %d -> %d, potential (gas + memory cost of both stacks) %d -> %d: %s", opName(opc), pc, run0, run1, phi0, phi1, how)}
 			break
 		}
 		ckPhi, ckStep = phi1, o.okSteps
@@ -397,6 +397,8 @@ type probed struct {
 }
 
 type worker struct {
+	stepsTotal int
+	stepsMax   int
 	probes     []probed
 	limits     []int64
 	ctx        *vm.Context
@@ -462,6 +464,13 @@ func (w *worker) run(pl plan, prog []byte, args [][]byte, L int64) outcome {
 	if o.steps > w.maxSteps {
 		w.maxSteps = o.steps
 	}
+	w.stepsTotal += o.steps
+	if L == maxGas {
+		w.stepsMax += o.steps
+		if o.steps > 10000 && os.Getenv("VERIF_DEBUG") == "2" {
+			fmt.Fprintf(os.Stderr, "long max run: %x args %x steps %d class %s inherit %v\n", prog, args, o.steps, o.class, o.inherit)
+		}
+	}
 	if o.v != nil {
 		w.report(pl, prog, args, L, o, 0, *o.v)
 	}
@@ -512,7 +521,8 @@ func (w *worker) evalCase(pl plan, prog []byte, args [][]byte) {
 				w.report(pl, prog, args, L, r, 0, viol{"succeeds-below-need", fmt.Sprintf("runs out of gas under limit %d but ends with %s under the smaller limit %d", bigLimit, r.class, L)})
 			}
 		}
-		if pl.max {
+		if pl.maxLoop && len(args) == 0 {
+			// 300000 instructions per run: only where the plan asks for it, on the empty initial stack
 			w.run(pl, prog, args, maxGas)
 		}
 		return
@@ -655,7 +665,7 @@ func main() {
 		var pl plan
 		switch {
 		case n <= 2:
-			stacks, pl = stacksZOH, plan{sweep: 41, max: true, maxLoop: true, verify: true}
+			stacks, pl = stacksZOH, plan{sweep: 41, max: true, maxLoop: n <= 1, verify: true}
 			if thorough {
 				stacks = stacksZOTH
 			}
@@ -766,6 +776,9 @@ func main() {
 					for _, lim := range lims {
 						args := append(append([][]byte{}, b.items...), b.n, pred, lim)
 						for si, sh := range shapes {
+							if si >= 2 && bi != 0 && bi != 2 && bi != 6 {
+								continue // (thorough) the symbol-before/after shapes run on three of the nine lower-stack configurations
+							}
 							pl := plan{family: "F2/checkpredicate", extras: []int64{0, 1, 40}, verify: si < 2}
 							w.evalCase(pl, exact(sh...), args)
 						}
@@ -835,6 +848,19 @@ func main() {
 	})
 
 	// ---------------------------------------------------------------- execute
+	// cheap, targeted families first; the long tail (longest programs) last
+	prio := func(u unit) int {
+		switch {
+		case strings.HasPrefix(u.name, "F3"):
+			return 0
+		case strings.HasPrefix(u.name, "F2"):
+			return 1
+		}
+		return 2 + int(u.name[len(u.name)-1]-'0')
+	}
+	sort.SliceStable(units, func(i, j int) bool { return prio(units[i]) < prio(units[j]) })
+	t0 := time.Now()
+	guard := time.Duration(run.Pick(150, 1080)) * time.Second
 	nw := runtime.NumCPU()
 	if nw > 8 {
 		nw = 8
@@ -849,6 +875,10 @@ func main() {
 			defer wg.Done()
 			for {
 				mu.Lock()
+				if next < len(units) && time.Since(t0) > guard {
+					run.Capped(fmt.Sprintf("wall-clock guard of %v reached after %d of %d work units", guard, next, len(units)))
+					next = len(units)
+				}
 				if next >= len(units) || run.OutOfTime() {
 					mu.Unlock()
 					return
@@ -858,6 +888,7 @@ func main() {
 				mu.Unlock()
 				w := newWorker()
 				t0 := time.Now()
+				_ = t0
 				u.run(w)
 				results[u.id] = w
 				if os.Getenv("VERIF_DEBUG") != "" {
@@ -887,6 +918,8 @@ func main() {
 		run.Add("cases_need_above_5000", w.needMore)
 		run.Add("failed_steps_leaving_unpaid_push", w.unpaid)
 		run.Add("verify_crosschecks", w.verified)
+		run.Add("instructions_executed", w.stepsTotal)
+		run.Add("instructions_executed_under_max_gas", w.stepsMax)
 		if w.maxNeed > maxNeed {
 			maxNeed = w.maxNeed
 		}
